@@ -458,4 +458,115 @@ def cases():
          "common/drivers/laze.yml": [{"apps": [{"name": "driver_test", "sources": ["d.c"]}], "modules": [{"name": "drv", "sources": ["drv.c"]}]}],
          "board_apps/laze.yml": [{"apps": [{"name": "board_app", "sources": ["b.c"], "selects": ["?drv"]}]}]}
     out.append((f, {}))
+    # 60: a dependency name that has BOTH a provider and a module of that name; the module of the name fails half way
+    #     (one of its hard dependencies does not exist for this builder) after the provider was taken: its partial
+    #     selection is rolled back, the provider stays
+    mods = [{"name": "stdio_semi", "provides": ["stdio"], "sources": ["semi.c"]},
+            {"name": "stdio", "sources": ["stdio.c"], "depends": ["ring", "uart"]},
+            {"name": "ring", "sources": ["ring.c"], "env": {"global": {"CFLAGS": ["-DRING"]}}},
+            {"name": "uart", "context": "b1", "sources": ["uart.c"]}]
+    out.append((base(mods, [{"name": "app", "sources": ["main.c"], "depends": ["stdio"]}]), {}))
+    # 61: --disable X while a module that conflicts X sits in an optional subtree that is rolled back (its second
+    #     dependency does not exist): X stays disabled for the rest of the resolution
+    mods = [{"name": "tele", "sources": ["t.c"], "selects": ["quiet", "cloud_sdk"]},
+            {"name": "quiet", "sources": ["q.c"], "conflicts": ["console"]},
+            {"name": "console", "sources": ["c.c"]}, {"name": "logging", "sources": ["l.c"]}]
+    for cli in ({"disable": ["console"]}, {}):
+        out.append((base(mods, [{"name": "app", "sources": ["main.c"], "selects": ["logging", "?tele", "?console"]}]), dict(cli)))
+    #     ... the same with a disabled PROVIDED name, and with the builder's own disables instead of the command line
+    mods2 = [dict(m) for m in mods]; mods2[2] = {"name": "console_impl", "sources": ["c.c"], "provides": ["console"]}
+    out.append((base(mods2, [{"name": "app", "sources": ["main.c"], "selects": ["logging", "?tele", "?console"]}]), {"disable": ["console"]}))
+    out.append((base(mods, [{"name": "app", "sources": ["main.c"], "selects": ["logging", "?tele", "?console"]}],
+                     builders=[{"name": "b0", "disables": ["console"]}, {"name": "b1"}]), {}))
+    # 62: rules whose input extensions differ only in case (plain and preprocessed assembly) are different rules; a
+    #     builder that overrides the rule for `s` leaves the inherited rule for `S` alone; `.c` is not `c`
+    ctx = [{"name": "default", "rules": RULES + [{"name": "AS", "in": "s", "out": "o", "cmd": "as ${in} -o ${out}"},
+                                                  {"name": "ASCPP", "in": "S", "out": "o", "cmd": "cc -x assembler-with-cpp -c ${in} -o ${out}"}],
+            "env": {"bindir": "${build-dir}/${builder}/${app}"}}]
+    f = {"laze-project.yml": [{"contexts": ctx, "builders": [{"name": "host"}, {"name": "cortex", "rules": [{"name": "AS_THUMB", "in": "s", "out": "o", "cmd": "as -mthumb ${in} -o ${out}"}]},
+                                                            {"name": "upper", "rules": [{"name": "CC_UP", "in": "C", "out": "o", "cmd": "c++ -c ${in} -o ${out}"}]}],
+                               "apps": [{"name": "app", "sources": ["main.c", "switch.s", "vectors.S"]}, {"name": "app2", "sources": ["main.c", "other.C"], "allowlist": ["upper"]}]}]}
+    out.append((f, {}))
+    # 63: a rule export written as a bare name (`export: [NS]` means NS=${NS}) for a variable the command does not
+    #     mention: every module's statements carry that module's own value
+    ctx = [{"name": "default", "rules": [{"name": "CC", "in": "c", "out": "o", "cmd": "cc ${CFLAGS} -c ${in} -o ${out}", "export": ["NS", {"FIXED": "f"}]}, RULES[1]],
+            "env": {"bindir": "${build-dir}/${builder}/${app}", "NS": "global-ns"}}]
+    mods = [{"name": "alpha", "sources": ["alpha.c"], "env": {"local": {"NS": "alpha-ns"}}},
+            {"name": "beta", "sources": ["beta.c"], "env": {"local": {"NS": "beta-ns"}}},
+            {"name": "gamma", "sources": ["gamma.c"]}]
+    f = {"laze-project.yml": [{"contexts": ctx, "builders": [{"name": "b0"}], "modules": mods,
+                               "apps": [{"name": "app", "sources": ["main.c"], "depends": ["alpha", "beta", "gamma"], "env": {"local": {"NS": "app-ns"}}}]}]}
+    out.append((f, {}))
+    # 64: an exported value that mentions a variable the exporter ALSO defines locally: exports travel unexpanded, the
+    #     name is looked up in the importer's env (the exporter's local value does not travel with it)
+    mods = [{"name": "libfoo", "sources": ["libfoo.c"], "env": {"local": {"incdir": "private-inc", "X": "foo-local-x"}, "export": {"CFLAGS": ["-I${relpath}/${incdir}", "-DX=${X}"]}}},
+            {"name": "libbar", "sources": ["libbar.c"], "uses": ["libfoo"], "env": {"local": {"incdir": "bar-inc"}}},
+            {"name": "libbaz", "sources": ["libbaz.c"], "depends": ["libbar"]}]
+    f = base(mods, [{"name": "app", "sources": ["main.c"], "depends": ["libfoo", "libbaz"]}])
+    f["laze-project.yml"][0]["contexts"][0]["env"].update({"incdir": "include", "X": "global-x"})
+    out.append((f, {}))
+    # 65: `${...}` in the url / commit of a download is NOT a laze variable there (the values are written as they are):
+    #     one download statement for the module, whatever the builders' envs say
+    mods = [{"name": "netlib", "download": {"git": {"url": "${MIRROR}/netlib.git", "commit": "${NETLIB_VERSION}"}}, "sources": ["net.c"], "env": {"local": {"NETLIB_VERSION": "mod-local"}}}]
+    f = dlbase(mods, [{"name": "app", "sources": ["main.c"], "depends": ["netlib"]}],
+               builders=[{"name": "b0", "env": {"NETLIB_VERSION": "v1.2", "MIRROR": "https://a.example"}}, {"name": "b1", "env": {"NETLIB_VERSION": "v2.0-rc1"}}])
+    out.append((f, {}))
+    # 66: builder and app names that differ only in characters a "safe file name" would fold together: the private
+    #     object directories of a non-shareable rule stay distinct
+    f = base([{"name": "proto", "sources": ["proto.S"]}],
+             [{"name": "net/echo", "sources": ["main.c"], "depends": ["proto"], "env": {"global": {"ASFLAGS": "-DECHO"}}},
+              {"name": "net_echo", "sources": ["main.c"], "depends": ["proto"], "env": {"global": {"ASFLAGS": "-DUNDERSCORE"}}},
+              {"name": "net echo", "sources": ["main.c"], "depends": ["proto"], "env": {"global": {"ASFLAGS": "-DBLANK"}}}],
+             builders=[{"name": "b:0"}, {"name": "b_0"}])
+    f["laze-project.yml"][0]["contexts"][0]["rules"] = RULES + [{"name": "AS", "in": "S", "out": "o", "cmd": "as ${ASFLAGS} ${in} -o ${out}", "shareable": False}]
+    out.append((f, {}))
+    # 67: builders with DIFFERENT rule sets next to each other (only the middle one has a POST_LINK rule and a rule for
+    #     .S), many apps: what a builder's chain does not define is not there for it, whatever was configured before on
+    #     the same worker
+    blds = [{"name": "sim"}, {"name": "board", "rules": [{"name": "POST_LINK", "in": "elf", "out": "hex", "cmd": "objcopy ${in} ${out}"},
+                                                          {"name": "AS", "in": "S", "out": "o", "cmd": "as ${in} -o ${out}"}]}, {"name": "zhost"}]
+    apps = [{"name": "w%02d" % i, "sources": ["w%02d.c" % i]} for i in range(8)]
+    out.append((base([], apps, builders=blds), {}))
+    # 68: apps declared by a file that is pulled in with includes: from a directory that has no lazefile of its own: they
+    #     belong to THAT directory (relpath), local mode from there builds them
+    f = base([{"name": "lib", "sources": ["lib.c"]}], [{"name": "rootapp", "sources": ["main.c"]}])
+    f["laze-project.yml"][0]["includes"] = ["tests/tests.yml"]; f["laze-project.yml"][0]["subdirs"] = ["src"]
+    f["tests/tests.yml"] = [{"apps": [{"name": "test_a", "sources": ["ta.c"], "depends": ["lib"]}, {"name": "test_b", "sources": ["tb.c"]}]}]
+    f["src/laze.yml"] = [{"apps": [{"name": "srcapp", "sources": ["s.c"]}]}]
+    out.append((f, {})); out.append((f, {"local": "tests"}))
+    # 69: a builder whose parent is a builder, an app with both lists: for the child the blocklisted parent builder
+    #     (distance 1) is nearer than the allowlisted context further up (distance 2) -- whatever was asked before
+    ctxs = [{"name": "arm", "parent": "default"}]
+    blds = [{"name": "native"}, {"name": "nrf", "parent": "arm"}, {"name": "nrf-debug", "parent": "nrf"}, {"name": "nrf-debug-x", "parent": "nrf-debug"}]
+    apps = [{"name": "sensor", "sources": ["main.c"], "allowlist": ["arm"], "blocklist": ["nrf"]},
+            {"name": "probe", "sources": ["p.c"], "allowlist": ["nrf-debug"], "blocklist": ["arm"]},
+            {"name": "plain", "sources": ["q.c"]}]
+    out.append((base([], apps, contexts=ctxs, builders=blds), {}))
+    # 70: a variable whose value mentions ${out} (or an undefined name), used by the LINK rule, the POST_LINK rule AND a
+    #     task: for the link rules ${out}/${in} are ninja's and undefined names stay; for the task ${out} is the
+    #     binary and undefined names are empty -- each use is expanded on its own
+    ctx = [{"name": "default", "rules": [RULES[0], {"name": "LINK", "in": "o", "cmd": "ld ${LIBDIR} ${in} -o ${out} -Map=${MAPFILE}"},
+                                          {"name": "POST_LINK", "in": "elf", "out": "bin", "cmd": "objcopy ${in} ${out} # ${MAPFILE} ${LIBDIR}"}],
+            "env": {"bindir": "${build-dir}/${builder}/${app}", "MAPFILE": "${out}.map", "LIBDIR": "-L${LIBDIR_NOT_SET}", "INFILE": "${in}.lst"},
+            "tasks": {"size": {"cmd": ["size MAP=${MAPFILE} [${LIBDIR}] ${INFILE} ${out}"], "build": False},
+                      "flash": {"cmd": ["flash ${out} ${MAPFILE}", "echo ${MAPFILE}"]}}}]
+    f = {"laze-project.yml": [{"contexts": ctx, "builders": [{"name": "b0"}, {"name": "b1"}], "apps": [{"name": "app", "sources": ["main.c"]}]}]}
+    out.append((f, {}))
+    # 71: a sub-directory document that consists of `apps:` alone (the directory-named app) under app defaults that
+    #     come down through subdirs:, next to one with an empty list
+    f = base([{"name": "basemod", "sources": ["basemod.c"], "env": {"export": {"CFLAGS": ["-DBASE"]}}}], [])
+    f["laze-project.yml"][0]["defaults"] = {"app": {"sources": ["common_main.c"], "depends": ["basemod"], "env": {"global": {"CFLAGS": ["-DFROM_DEFAULTS"]}}}}
+    f["laze-project.yml"][0]["subdirs"] = ["hello", "quiet"]
+    f["hello/laze.yml"] = [{"apps": None}]
+    f["quiet/laze.yml"] = [{"apps": []}, {"apps": None}]
+    out.append((f, {}))
+    # 72: one task name on several levels of a builder's chain: the NEAREST declaration is the task (its command, its
+    #     requirements, its build: flag); a module's task of that name beats the contexts'
+    ctxs = [{"name": "family", "parent": "default", "tasks": {"flash": {"cmd": ["flash-generic ${PORT}"], "required_vars": ["PORT"]},
+                                                              "term": {"cmd": ["term-generic"]}}}]
+    blds = [{"name": "hw", "parent": "family", "env": {"PORT": "/dev/ttyACM0"}},
+            {"name": "sim", "parent": "family", "tasks": {"flash": {"cmd": ["echo nothing to flash for ${app}"], "build": False}}},
+            {"name": "sim2", "parent": "sim", "tasks": {"term": {"cmd": ["term-sim2"], "required_modules": ["console"]}}}]
+    mods = [{"name": "console", "sources": ["console.c"], "tasks": {"term": {"cmd": ["term-from-module"]}}}]
+    out.append((base(mods, [{"name": "app", "sources": ["main.c"]}, {"name": "capp", "sources": ["c.c"], "selects": ["console"]}], contexts=ctxs, builders=blds), {}))
     return out
